@@ -362,7 +362,7 @@ def run(ctx):
             ps = [F(0), F(1), F(-1), F(2)]   # erf series at generic points exceed the quick budget
         per_variant[variant] = per_variant.get(variant, 0) + 1
         val_tasks.append({"kind": "dist_transform", "family": fam, "params": [fstr(p) for p in ps],
-                          "kmax": ctx.pick(3, 6) if variant == "truncnormal" else 6, "budget": ctx.pick(20, 60),
+                          "kmax": ctx.pick(3, 6) if variant == "truncnormal" else 6, "budget": ctx.pick(15, 60),
                           "tol": 1e-9 if variant == "truncnormal" else None,
                           "timeout": ctx.pick(70, 150)})
         val_meta.append((variant, fam, ps))
@@ -618,8 +618,8 @@ def run(ctx):
                 vstat["mismatch"] += 1
                 if variant == "bernoulli" and k == "0":
                     # the same defect seen from the transform side: mgf(0) = 1 but get_moment(0) = p
-                    ctx.violation("Bernoulli.get_moment(0)", {"input": label, "which": which, "k": 0, "detail": st},
-                                  f"Bernoulli {which} at 0 gives {st['transform_value']} but get_moment(0) = {st['moment']}")
+                    fnd.add("Bernoulli.get_moment", (0, 2), "Bernoulli.get_moment(0)", {"input": label, "which": which, "k": 0, "detail": st},
+                            f"Bernoulli({', '.join(label['params'])}).{which} at 0 gives {st['transform_value']} but get_moment(0) = {st['moment']}")
                     continue
                 fnd.add(f"{fam}.{which}", (int(k), 0), f"{fam}.{which}:k={k}:params={label['params']}",
                         {"input": label, "which": which, "k": int(k), "detail": st,
